@@ -821,6 +821,9 @@ def always_leaves(body) -> bool:
     if isinstance(last, ast.If):
         return bool(last.orelse) and always_leaves(last.body) and always_leaves(last.orelse)
     if isinstance(last, ast.With):
+        # a context manager that swallows exceptions (contextlib.suppress) lets control fall out of the block
+        if any(isinstance(it.context_expr, ast.Call) and (dotted(it.context_expr.func) or "").split(".")[-1] == "suppress" for it in last.items):
+            return False
         return always_leaves(last.body)
     if isinstance(last, ast.Try):
         if last.finalbody and always_leaves(last.finalbody):
